@@ -461,6 +461,84 @@ func runC12(c *CaseCtx) {
 					default:
 						c.Violate("in-doubt-partial:in-process:"+firstDiffCall(got, beforeObs), class, fmt.Sprintf("after %s the transaction is partially visible in the process:\n%s", where, diffObs(got, beforeObs)))
 					}
+					if !c.Violated() && !mergeVariant && cfg.Mode != 2 && r.Intn(3) == 0 {
+						// the handle is kept: more committed transactions on it before any reopen. Either (a) one Put
+						// whose record is exactly as long as the first record of the in-doubt transaction (other key
+						// of the same length, value of the same length), or (b) single Puts until the segment has been
+						// rotated away. They only write keys the in-doubt transaction did not touch, so after the reopen
+						// the contents must be "before" or "after" the in-doubt transaction, plus these Puts.
+						touched := map[string]bool{}
+						for _, o := range t.Ops {
+							touched[o.B+"\x00"+string(o.Key)] = true
+						}
+						var extra []Op
+						first := t.Ops[0]
+						if (first.K == "Put" || first.K == "PutTS") && r.Intn(2) == 0 {
+							for _, k := range u.KVKeys {
+								if len(k) == len(first.Key) && !touched[first.B+"\x00"+string(k)] {
+									v := make([]byte, len(first.Val))
+									for i := range v {
+										v[i] = 'f'
+									}
+									extra = append(extra, Op{K: "Put", B: first.B, Key: k, Val: v})
+									break
+								}
+							}
+						}
+						if len(extra) == 0 {
+							files0 := run.Files()
+							for n := 0; n < 14; n++ {
+								k := u.KVKeys[r.Intn(len(u.KVKeys))]
+								b := u.Buckets[r.Intn(len(u.Buckets))]
+								if touched[b+"\x00"+string(k)] {
+									continue
+								}
+								v := make([]byte, int(cfg.Seg)/6)
+								for i := range v {
+									v[i] = byte('a' + n)
+								}
+								extra = append(extra, Op{K: "Put", B: b, Key: k, Val: v})
+							}
+							_ = files0
+						}
+						mB, mA := before.Clone(), m.Clone()
+						okAll := true
+						for _, o := range extra {
+							out2 := execTx(run.DB, TxSpec{Mode: "update", Ops: []Op{o}})
+							run.NTx++
+							c.Log("tx %d (handle kept after the in-doubt commit) update{%s}", run.NTx, o.String())
+							if out2.Panic != "" {
+								c.Violate("panic:tx:"+out2.Panic, class, "panic in a commit on the handle kept after an in-doubt commit: "+out2.Panic)
+								run.Dead = true
+								okAll = false
+								break
+							}
+							if out2.Err != nil {
+								// the handle may refuse further commits after the fault (tolerated: no effect); stop here
+								okAll = false
+								break
+							}
+							mB.Apply(o, out2.Res[0])
+							mA.Apply(o, out2.Res[0])
+						}
+						c.Stat("in_doubt_handles_kept", 1)
+						if !run.Dead && run.Reopen() {
+							got, _ = obsReal(run.DB, u)
+							switch {
+							case sameObs(got, obsModel(mB, u)):
+								run.M = mB
+							case sameObs(got, obsModel(mA, u)):
+								run.M = mA
+							default:
+								if okAll || true {
+									c.Violate("in-doubt-partial:after-more-commits+reopen:"+firstDiffCall(got, obsModel(mB, u)), class,
+										fmt.Sprintf("after %s, %d more committed Puts of other keys on the same handle and a reopen, the contents are neither 'before' nor 'after' the in-doubt transaction plus those Puts:\n%s", where, len(extra), diffObs(got, obsModel(mB, u))))
+								}
+							}
+						}
+						c.Stat("in_doubt_outcomes", 1)
+						break
+					}
 					if !c.Violated() && mergeVariant && r.Intn(4) != 0 && run.Files() >= 2 {
 						// the in-doubt transaction is not retried and the same process merges: all or nothing must
 						// also hold across the Merge (and the reopen that follows below)
